@@ -386,7 +386,10 @@ fn c16_run_inner(case: &CaseC16) -> CaseReport {
             }
             // the whole history (with truncate) on the case's own backend and layout: reserved prefix,
             // remaining law and accessors are checked after every step by the interpreter
-            if viol.is_none() {
+            // (also when the lock-step runs only tripped over a predicate of another property: what that does
+            // to the reserved prefix is still this property's business)
+            if viol.as_ref().map_or(true, |v| !crate::enga::owns(v.prop, "C16")) {
+                let lock_viol = viol.take();
                 let mut c = case.cfg.clone();
                 c.cap_extra = case.delta as u32;
                 let single = match c.flavor {
@@ -394,7 +397,10 @@ fn c16_run_inner(case: &CaseC16) -> CaseReport {
                     Fl::Unsync => run_history::<unsync::Arena>(&c, &case.ops, Mode::default()),
                 };
                 classes.extend(single.classes.iter().copied());
-                viol = single.viol.or(single.foreign);
+                viol = match single.viol {
+                    Some(v) if crate::enga::owns(v.prop, "C16") => Some(v),
+                    other => lock_viol.or(other).or(single.foreign),
+                };
             }
         }
         let nontrivial = classes.contains("reserved-unaligned") || classes.contains("capacity-at-prefix");
